@@ -62,6 +62,8 @@ class Run(object):
       result = 'EXC:FailureExc'
     elif r in ('bad', 'bad0'):
       result = 'EXC:InvalidPhaseResultError'
+    elif r == 'sysexit':
+      result = 'KILLED'        # the phase thread died without a result (SystemExit): like a killed phase
     elif r == 'fail_subtest' and subtest is None:
       result = 'EXC:InvalidPhaseResultError'
     else:
@@ -69,7 +71,7 @@ class Run(object):
     meas_outcome = {'none': None, 'pass': 'PASS', 'marg': 'PASS', 'fail': 'FAIL', 'unset': 'UNSET'}[m]
     # a body that raised/hung after setting the measurement keeps the value it set
     hit_limit = result == 'REPEAT' and last_repeat
-    terminal = result.startswith('EXC:') or result in ('TIMEOUT', 'STOP')
+    terminal = result.startswith('EXC:') or result in ('TIMEOUT', 'STOP', 'KILLED')
     if terminal or hit_limit:
       outcome = 'ERROR'
     elif result in ('REPEAT', 'SKIP'):
@@ -86,7 +88,7 @@ class Run(object):
         outcome = 'PASS'
     diag, fdiag = [], []
     # diagnosers: once per invocation that was neither skipped, repeated nor aborted; all of them
-    if result not in ('REPEAT', 'SKIP') or (result == 'REPEAT' and False):
+    if result not in ('REPEAT', 'SKIP', 'KILLED') or (result == 'REPEAT' and False):
       diags = beh.get('diag') or []
       if not isinstance(diags, list):
         diags = [diags]
@@ -103,7 +105,7 @@ class Run(object):
         self.diagnoses.append((d, is_f))
         self.store.add(d)
     if outcome != 'ERROR':
-      if result.startswith('EXC:') or result in ('TIMEOUT', 'STOP'):
+      if result.startswith('EXC:') or result in ('TIMEOUT', 'STOP', 'KILLED'):
         outcome = 'ERROR'
       elif outcome == 'PASS' and fdiag:
         outcome = 'FAIL'
@@ -130,6 +132,8 @@ class Run(object):
         again = True
       elif result == 'REPEAT':
         again = True
+      elif result == 'KILLED':
+        again = False          # an aborted / killed attempt is never repeated
       elif opts.get('force_repeat'):
         again = True
       elif opts.get('repeat_on_measurement_fail'):
@@ -146,6 +150,8 @@ class Run(object):
         self.first_terminal = ('exc', result[4:])
       elif result == 'TIMEOUT':
         self.first_terminal = ('timeout',)
+      elif result == 'KILLED':
+        self.first_terminal = ('exc', 'ThreadTerminationError')
       else:
         self.first_terminal = ('stop',)
 
@@ -160,7 +166,7 @@ class Run(object):
     if self.s.get('sof') and len(self.phases) > before and self.phases[-1]['outcome'] == 'FAIL':
       # stop_on_first_failure: a failed phase stops the test
       result = 'STOP'
-    if result.startswith('EXC:') or result in ('TIMEOUT', 'STOP'):
+    if result.startswith('EXC:') or result in ('TIMEOUT', 'STOP', 'KILLED'):
       self.terminal_event(result)
       return 'TERMINAL'
     if result == 'FAIL_SUBTEST':
